@@ -1798,7 +1798,7 @@ class UnitQuaternion(Quaternion):
         s1 = float(math.cos(theta) - dot * math.sin(theta) / math.sin(theta_0))
         s2 = math.sin(theta) / math.sin(theta_0)
         out = (q1 * s1) + (q2 * s2)
-        return UnitQuaternion(out)
+        return UnitQuaternion(out, check=False)
 
     def plot(self, *args, **kwargs):
         """
